@@ -213,6 +213,18 @@ def exc_info(e):
     return type(e).__name__, code, isinstance(e, VTLEngineException)
 
 
+def raise_site(e):
+    """innermost frame of the traceback that lies in the engine's source: 'file.py:function'"""
+    tb = e.__traceback__
+    site = None
+    while tb is not None:
+        fn = tb.tb_frame.f_code.co_filename
+        if "/vtlengine/" in fn:
+            site = f"{os.path.basename(fn)}:{tb.tb_frame.f_code.co_name}"
+        tb = tb.tb_next
+    return site or "outside-engine"
+
+
 def call(fn, *a, **k):
     """('ok', value) | ('exc', exception)"""
     try:
